@@ -384,7 +384,7 @@ Section Voc.
                 (vr_precisions (voc_row_of rnd npig ms rthrs t1)) /\
     vr_ap (voc_row_of rnd npig ms rthrs t2) <= vr_ap (voc_row_of rnd npig ms rthrs t1).
   Proof.
-    intros Ht. unfold voc_row_of. cbn [vr_recall vr_precisions vr_ap].
+    intros Ht. unfold vr_ap, voc_row_of. cbn [vr_recall vr_precisions].
     pose proof (tp_list_mono t1 t2 ms Ht) as Htp. pose proof (fp_list_mono t1 t2 ms Ht) as Hfp.
     pose proof (rc_list_mono npig _ _ Htp) as Hrc.
     pose proof (envelope_mono _ _ (pr_list_mono _ _ Htp _ _ Hfp)) as Henv.
@@ -409,7 +409,7 @@ Section Voc.
     Forall (fun x => 0 <= x <= 1) (vr_precisions (voc_row_of rnd npig ms rthrs t)) /\
     0 <= vr_ap (voc_row_of rnd npig ms rthrs t) <= 1.
   Proof.
-    intros Hn. unfold voc_row_of. cbn [vr_recall vr_precisions vr_ap].
+    intros Hn. unfold vr_ap, voc_row_of. cbn [vr_recall vr_precisions].
     pose proof (rc_list_bounds npig _ (tp_list_upper t ms npig Hn)) as Hrc.
     assert (Hprec : Forall (fun x => 0 <= x <= 1)
       (map (precision_at (envelope (pr_list (tp_list t ms) (fp_list t ms))) (rc_list rnd npig (tp_list t ms))) rthrs)).
@@ -547,7 +547,7 @@ Lemma voc_metrics_rows rnd mscores pps n_fn mthrs rthrs v :
   voc_mar v = qmean (map vr_recall (voc_rows v)) /\ pps <> [].
 Proof.
   unfold voc_metrics. destruct pps as [|pp pps]; [discriminate|]. intros H; inversion H; subst; clear H.
-  cbn [voc_rows voc_map voc_mar]. repeat split; discriminate.
+  unfold voc_map, voc_mar. cbn [voc_rows]. repeat split; discriminate.
 Qed.
 
 (* ------------------------------------------------------------------ *)
@@ -751,7 +751,7 @@ Lemma match_loop_perfect_fst n M thr : perfect_M n M -> thr < 1 ->
 Proof.
   intros HM Hthr. induction order as [|p rest IH]; intros avail Hnd Hndo Hincl Hlt; [reflexivity|].
   cbn [match_loop]. assert (Hin : In p avail) by (apply Hincl; left; reflexivity).
-  destruct avail as [|a0 av] eqn:Eav; [contradiction|]. rewrite <- Eav in *.
+  destruct avail as [|a0 av] eqn:Eav; [contradiction|]. rewrite <- Eav in *. clear Eav.
   destruct (best_perfect n M thr avail p HM Hthr Hin Hlt) as [pos [Hb [Hpos Hnth]]].
   rewrite Hb, Hnth.
   pose proof (pop_at_perm 0%nat pos avail Hpos) as Hperm. rewrite Hnth in Hperm.
@@ -780,12 +780,13 @@ Proof.
     pose proof (match_loop_perfect_fst n M thr HM Hthr (argsort_desc scores) (seq 0 n)
                   (seq_NoDup n 0) Hndo) as Hfst.
     destruct (match_loop M thr (argsort_desc scores) (seq 0 n)) as [ms missed] eqn:E.
-    cbn [fst] in Hfst. rewrite Hfst.
-    2:{ intros q Hq. eapply Permutation_in; eauto. }
-    2:{ intros g Hg. apply in_seq in Hg. lia. }
-    f_equal. pose proof (match_loop_perm _ _ _ _ _ _ E) as Hp. apply Permutation_length in Hp.
-    rewrite app_length, !map_length, seq_length in Hp.
-    rewrite (Permutation_length Hperm), seq_length in Hp. destruct missed; [reflexivity|cbn in Hp; lia]. }
+    cbn [fst] in Hfst.
+    assert (Hms : ms = map (fun p => (p, p, 1)) (argsort_desc scores)).
+    { apply Hfst; [intros q Hq; eapply Permutation_in; eauto | intros g Hg; apply in_seq in Hg; lia]. }
+    pose proof (match_loop_perm _ _ _ _ _ _ E) as Hp. apply Permutation_length in Hp.
+    rewrite app_length, map_length, seq_length in Hp. rewrite Hms, map_length in Hp.
+    rewrite (Permutation_length Hperm), seq_length in Hp.
+    rewrite Hms. f_equal. destruct missed; [reflexivity|cbn in Hp; lia]. }
   unfold match_instances. destruct n as [|n']; [|rewrite Hloop; reflexivity].
   destruct scores; [|discriminate]. rewrite Hloop. reflexivity.
 Qed.
